@@ -159,6 +159,7 @@ func (p Plan) Validate(ctx context.Context, n int, pb ProgressBar) (err error) {
 		})
 	}
 
+	var interrupted bool
 loop:
 	for _, s := range p {
 		if !s.isFileSeed() {
@@ -168,11 +169,18 @@ loop:
 		verifYield("validate.feed")
 		select {
 		case <-ctx.Done():
+			interrupted = true
 			break loop
 		case in <- Job{s, fileMap[s.source.FileName()]}:
 		}
 	}
 	close(in)
 
-	return g.Wait()
+	if err := g.Wait(); err != nil {
+		return err
+	}
+	if interrupted { // stopped early without a worker failing, not everything was validated
+		return Interrupted{}
+	}
+	return nil
 }
